@@ -25,11 +25,11 @@ CHECKS = {
                 note='ARM paths cannot run on this host. A variant whose intended path never ran (or whose forbidden path ran) makes the result inconclusive, never a pass. The failed self-test is simulated in the harness; the CPU is not faulty. Counters above 2^16 blocks rely on the seek hook; the 2^64 wrap is not exercised.'),
     'C04': dict(level='exploration', ref='4/C04',
                 technique='runtime monitoring: trace checker (vlib/evtrace.py rule set C04) over the API-boundary event log of random register/cancel/reset programs run by the real event loop on a simulated kernel (interposed poll/clock_gettime), invariant hook of events_network.c at every callback and poll entry, ASan+UBSan with real and pass-through pool',
-                text='60,000 (quick) / 800,000 (thorough) random programs, each ending in a drain where every surviving registration must fire exactly once; rules: callback only while registered and at most once, socket callback only after a poll reported the direction ready since registration (or the latest poll reported ERR/HUP), timer never early, EEXIST/ENOENT, the six structural invariants. One step in 60 is a timer burst (8-48 timers, a random half cancelled or reset in random order) so that the timer heap gets several levels deep.',
+                text='60,000 (quick) / 800,000 (thorough) random programs, each ending in a drain where every surviving registration must fire exactly once; rules: callback only while registered and at most once, socket callback only after a poll reported the direction ready since registration (or the latest poll reported ERR/HUP), timer never early, EEXIST/ENOENT, the six structural invariants. One step in 60 is a timer burst (8-48 timers, a random half cancelled or reset in random order) so that the timer heap gets several levels deep; one program in eight uses 40 descriptors (the pollfd array grows while holding registrations; four processes per core). Then 384 / 4,800 programs on the REAL kernel (socketpairs, real poll and CLOCK_MONOTONIC) with the timing-independent rules judged inline (callback only for a live registration, descriptor really ready at callback entry, timer not early, EEXIST/ENOENT).',
                 note='Kernel and clock are simulated (harness/common/simk.c); programs are random, descriptors <= 12; allocation failure is C14.'),
     'C05': dict(level='exploration', ref='4/C05',
                 technique='runtime monitoring: trace checker (vlib/evtrace.py rule set C05) over the same executions as C04, judged against a model of {pending immediates, world-ready sockets, expired timers} in virtual time',
-                text='Order (immediate < ready socket < expired timer, priority then FIFO, deadline order), bounded progress per events_run (runs something if runnable without sleeping first; sleeps no longer than the earliest deadline rounded up to 1 ms; a wake-up is followed by a callback), status propagation (first non-zero return / interrupt stops dispatch and is returned; events_spin), nothing lost in the final drain.',
+                text='Order (immediate < ready socket < expired timer, priority then FIFO, deadline order), bounded progress per events_run (runs something if runnable without sleeping first; sleeps no longer than the earliest deadline rounded up to 1 ms; a wake-up is followed by a callback), status propagation (first non-zero return / interrupt stops dispatch and is returned; events_spin), nothing lost in the final drain. Then 384 / 4,800 programs on the REAL kernel (socketpairs, real poll and clock) with the timing-independent rules judged inline: immediates in (priority, FIFO) order and before any socket or timer callback, events_run returns the first non-zero status and runs nothing after it, nothing stays registered after a drain of >= 200 loop passes and >= 2 s.',
                 note='Unbounded liveness is not decidable by finite runs and is not claimed; progress clauses are bounded by one events_run call. EINTR is injected only into polls that would block.'),
     'C06': dict(level='exploration', ref='4/C06',
                 technique='runtime monitoring: byte-exact stream oracle at the syscall boundary (interposed recv/send/connect/getsockopt/accept/socket/close/poll/clock) with exactly-once counters, ASan+UBSan, real and pass-through pool',
